@@ -51,14 +51,18 @@ class StmtMixin:
         """Evaluate fn(st); turn the hazards it met into raise outcomes."""
         self.hz = []
         self.pending_effect = None
+        self.cur_state = st
         v = fn(st)
+        self.cur_state = None
         outs = []
         prior = []
         so = self.ordinal(node)
         for i, h in enumerate(self.hz):
             rs = (h.state if h.state is not None else st).fork()
-            if h.state is not None:
-                rs.pc.extend(x for x in st.pc[len(h.state.pc):] if False)  # facts after the fault do not belong to it
+            if h.state is None and h.pc_len is not None:
+                # facts learnt after the hazard point (e.g. the postcondition of the very call whose
+                # precondition is in question) must not be assumed on the failing edge
+                rs.pc = rs.pc[: h.pc_len]
             for p in prior:
                 rs.assume(p)
             rs.assume(z3.Not(h.safe))
